@@ -16,6 +16,7 @@ import (
 
 	"github.com/sourcenetwork/immutable"
 
+	acpTypes "github.com/sourcenetwork/defradb/acp/types"
 	"github.com/sourcenetwork/defradb/client"
 	"github.com/sourcenetwork/defradb/client/request"
 	"github.com/sourcenetwork/defradb/errors"
@@ -23,6 +24,7 @@ import (
 	coreblock "github.com/sourcenetwork/defradb/internal/core/block"
 	"github.com/sourcenetwork/defradb/internal/datastore"
 	"github.com/sourcenetwork/defradb/internal/db/fetcher"
+	"github.com/sourcenetwork/defradb/internal/db/permission"
 	"github.com/sourcenetwork/defradb/internal/keys"
 	"github.com/sourcenetwork/defradb/internal/planner/mapper"
 )
@@ -235,6 +237,16 @@ func (n *dagScanNode) Next() (bool, error) {
 		return false, err
 	}
 
+	// commits of documents the requester may not read are invisible, as the documents themselves are
+	hasAccess, err := n.hasReadAccess(dagBlock)
+	if err != nil {
+		return false, err
+	}
+	if !hasAccess {
+		n.visitedNodes[currentCid.String()] = true
+		return n.Next()
+	}
+
 	if n.commitSelect.FieldName.HasValue() {
 		if n.commitSelect.FieldName.Value() == request.CompositeFieldName {
 			if dagBlock.Delta.IsComposite() {
@@ -432,6 +444,39 @@ func (n *dagScanNode) dagBlockToNodeDoc(block *coreblock.Block) (core.Doc, error
 	}
 
 	return commit, nil
+}
+
+// hasReadAccess returns true if the requester may read the document that the block belongs to.
+func (n *dagScanNode) hasReadAccess(block *coreblock.Block) (bool, error) {
+	if !n.planner.documentACP.HasValue() {
+		return true, nil
+	}
+	docID := string(block.Delta.GetDocID())
+	if docID == "" {
+		// a collection level commit does not belong to a document
+		return true, nil
+	}
+	cols, err := n.planner.db.GetCollections(
+		n.planner.ctx,
+		client.CollectionFetchOptions{
+			VersionID:       immutable.Some(block.Delta.GetSchemaVersionID()),
+			IncludeInactive: immutable.Some(true),
+		},
+	)
+	if err != nil {
+		return false, err
+	}
+	if len(cols) == 0 {
+		return false, nil
+	}
+	return permission.CheckAccessOfDocOnCollectionWithACP(
+		n.planner.ctx,
+		n.planner.identity,
+		n.planner.documentACP.Value(),
+		cols[0],
+		acpTypes.DocumentReadPerm,
+		docID,
+	)
 }
 
 func (n *dagScanNode) addSignatureFieldToDoc(link cidlink.Link, commit *core.Doc) error {
